@@ -109,6 +109,8 @@ def worker_main(path):
 def _run_cvc5(ob, tmpdir):
     p = os.path.join(tmpdir, f"q{os.getpid()}_{abs(hash(ob['name'])) % 10**8}.smt2")
     with open(p, "w") as f:
+        if "(set-logic" not in ob["smt2"]:
+            f.write("(set-logic ALL)\n")
         f.write(ob["smt2"])
         if "(check-sat)" not in ob["smt2"]:
             f.write("\n(check-sat)\n")
